@@ -571,6 +571,79 @@ void naive_case(vt::Rng& rng, int64_t icase)
         vt::put(vt::J("Naive").i("case", icase).s("what", "gboost-bias").s("loss", lossid).i("scaling", static_cast<int64_t>(mode)).i("threads", static_cast<int64_t>(threads)).i(
             "batch", std::min<tensor_size_t>(batch, 100000)).b("cachedInputs", false).b("cachedTargets", cachet).b("finite", bfinite).b(
             "naiveOK", !bfinite || (close_rel(bfx, nbf) && close_rel(bgx, nbg))).b("valueOnlySame", !bfinite || close_rel(bias.vgrad(bx), bfx)));
+
+        // gboost scale objective: mean_i loss(t_i, s_i + x[cluster_i] * w_i), real-valued outputs, some samples unassigned
+        const auto groups = rng.range(1, 4);
+        cluster_t  cluster(D.n, groups);
+        tensor4d_t soutputs(cat_dims(D.n, dataset->target_dims())), woutputs(cat_dims(D.n, dataset->target_dims()));
+        for (tensor_size_t i = 0; i < soutputs.size(); ++i)
+        {
+            soutputs(i) = rng.uniform(-1.0, 1.0);
+            woutputs(i) = rng.uniform(-1.0, 1.0);
+        }
+        for (int64_t u = 0; u < D.n; ++u)
+        {
+            cluster.assign(u, rng.coin(1, 5) ? -1 : rng.range(0, groups - 1));
+        }
+        vector_t sx(groups), sgx(groups), nsg(groups);
+        for (tensor_size_t g = 0; g < groups; ++g)
+        {
+            sx(g) = rng.uniform(-1.0, 2.0);
+        }
+        for (tensor_size_t i = 0; i < n; ++i)
+        {
+            const auto group = cluster.group(samples(i));
+            for (tensor_size_t k = 0; k < tsize; ++k)
+            {
+                outputs.reshape(n, tsize)(i, k) =
+                    soutputs.reshape(D.n, tsize)(samples(i), k) + (group < 0 ? 0.0 : sx(group)) * woutputs.reshape(D.n, tsize)(samples(i), k);
+            }
+        }
+        loss->value(T, outputs, values);
+        loss->vgrad(T, outputs, vgrads);
+        const auto nsf = values.vector().sum() / static_cast<double>(n);
+        nsg.full(0.0);
+        for (tensor_size_t i = 0; i < n; ++i)
+        {
+            const auto group = cluster.group(samples(i));
+            for (tensor_size_t k = 0; k < tsize && group >= 0; ++k)
+            {
+                nsg(group) += vgrads.reshape(n, tsize)(i, k) * woutputs.reshape(D.n, tsize)(samples(i), k) / static_cast<double>(n);
+            }
+        }
+        const auto scale   = gboost::scale_function_t{tit, *loss, cluster, soutputs, woutputs};
+        const auto sfx     = scale.vgrad(sx, sgx);
+        const auto sfinite = std::isfinite(nsf) && nsg.all_finite();
+        vt::put(vt::J("Naive").i("case", icase).s("what", "gboost-scale").s("loss", lossid).i("scaling", static_cast<int64_t>(mode)).i("threads", static_cast<int64_t>(threads)).i(
+            "batch", std::min<tensor_size_t>(batch, 100000)).b("cachedInputs", false).b("cachedTargets", cachet).b("finite", sfinite).b(
+            "naiveOK", !sfinite || (close_rel(sfx, nsf) && close_rel(sgx, nsg))).b("valueOnlySame", !sfinite || close_rel(scale.vgrad(sx), sfx)));
+
+        // gboost gradient objective: the per-sample loss gradients at real-valued outputs
+        const auto grads = gboost::grads_function_t{tit, *loss};
+        vector_t   ox(n * tsize), ogx(n * tsize), nog(n * tsize);
+        for (tensor_size_t i = 0; i < ox.size(); ++i)
+        {
+            ox(i)                              = rng.uniform(-1.0, 1.0);
+            outputs.reshape(n, tsize).data()[i] = ox(i);
+        }
+        loss->value(T, outputs, values);
+        loss->vgrad(T, outputs, vgrads);
+        const auto ngf = values.vector().sum() / static_cast<double>(n);
+        for (tensor_size_t i = 0; i < ox.size(); ++i)
+        {
+            nog(i) = vgrads.data()[i] / static_cast<double>(n);
+        }
+        const auto gfx     = grads.vgrad(ox, ogx);
+        const auto gfinite = std::isfinite(ngf) && nog.all_finite();
+        const auto& pergrads = grads.gradients(outputs);
+        bool        persame  = pergrads.size() == vgrads.size();
+        for (tensor_size_t i = 0; i < vgrads.size() && persame; ++i)
+        {
+            persame = !std::isfinite(vgrads.data()[i]) || close_rel(pergrads.data()[i], vgrads.data()[i]);
+        }
+        vt::put(vt::J("Naive").i("case", icase).s("what", "gboost-grads").s("loss", lossid).i("scaling", static_cast<int64_t>(mode)).i("threads", static_cast<int64_t>(threads)).i(
+            "batch", std::min<tensor_size_t>(batch, 100000)).b("cachedInputs", false).b("cachedTargets", cachet).b("finite", gfinite).b(
+            "naiveOK", !gfinite || (close_rel(gfx, ngf) && close_rel(ogx, nog) && persame)).b("valueOnlySame", !gfinite || close_rel(grads.vgrad(ox), gfx)));
     }
 }
 } // namespace
